@@ -69,7 +69,10 @@ def build_impl(sdir, sanitize=True, opt="-O1", extra=()):
         o = os.path.join(sdir, "obj", s.replace("/", "_")[:-2] + ".o")
         os.makedirs(os.path.dirname(o), exist_ok=True)
         objs.append(o)
-        jobs.append(["mpicc"] + flags + ["-I" + src, "-I" + HARNESS, "-c", os.path.join(src, s), "-o", o])
+        # the arenas of the rollbackable allocator come from malloc, whose address order the library sorts them by: the harness supplies that
+        # order (harness/trace.c verif_arena_malloc: plain malloc unless VERIF_ARENA_ORDER asks for descending / scrambled addresses)
+        ren = ["-Dmalloc=verif_arena_malloc", "-Dfree=verif_arena_free"] if s.endswith("mm/buddy/multi.c") else []
+        jobs.append(["mpicc"] + flags + ren + ["-I" + src, "-I" + HARNESS, "-c", os.path.join(src, s), "-o", o])
     out = []
 
     def one(cmd):
